@@ -160,7 +160,12 @@ func (b *BoltStorage) Load(ctx *Context, loc string) ([]Pair, error) {
 		for k, v := c.First(); k != nil; k, v = c.Next() {
 			Log(INFO|STORAGE, ctx, "BoltStorage.Load", "location", loc,
 				"key", string(k), "val", string(v))
-			data = append(data, Pair{k, v})
+			// The byte slices of a cursor are only valid
+			// while the transaction lives (they point into
+			// the memory-mapped file): hand out copies.
+			key := append([]byte(nil), k...)
+			val := append([]byte(nil), v...)
+			data = append(data, Pair{key, val})
 		}
 		return nil
 	})
